@@ -99,6 +99,27 @@ func c06Gen(rt *rapid.T) wProg {
 				p.Ops = append(p.Ops, wOp{K: "sub", S: k, T: "p3", H: map[string]any{"defacs": map[string]any{"auth": gPick(rt, []string{"JRWSDO", "JRWPASDO", "JRW", "JRWPA"}, "p2pdef"), "anon": "N"}}})
 			}
 		}
+		if i == 3 && gPct(rt, 10) {
+			// user 0 sits on the own search topic; somebody else names that topic literally
+			k := gInt(rt, 1, len(p.Sess)-1, "fndvisitor")
+			p.Ops = append(p.Ops, wOp{K: "sub", S: 0, T: "fnd"}, wOp{K: "sub", S: k, T: "F0"}, wOp{K: "sub", S: k, T: "M0"})
+		}
+		if i == 4 && gPct(rt, 12) {
+			// a member who was offered approver rights and never accepted them (A in given only) removes another member
+			m := gInt(rt, 1, 2, "offered")
+			if hs := sessOfUser(m); hs > 0 {
+				p.Ops = append(p.Ops, wOp{K: "sub", S: hs, T: "g0", A: "JRWPS"}, wOp{K: "set", S: 0, T: "g0", A: "given", U: m, B: gPick(rt, []string{"JRWPAS", "JRWPASD", "JRWPASDO"}, "offer")},
+					wOp{K: "del", S: hs, T: "g0", A: "sub", U: 3 - m})
+			}
+		}
+		if i == 2 && p.Cfg.Root && gPct(rt, 30) {
+			// the root session starts a P2P topic on behalf of a user, at that user's (lower) level
+			x := gInt(rt, 1, 3, "p2pobo")
+			y := 1 + (x+gInt(rt, 0, 1, "p2ppeer"))%3
+			if y != x {
+				p.Ops = append(p.Ops, wOp{K: "sub", S: 0, T: fmt.Sprintf("p%d", y), Obo: x + 1, Lvl: gPick(rt, []string{"anon", "anon", "auth", ""}, "obolvl")})
+			}
+		}
 		if i == 2 && p.Cfg.Root && gPct(rt, 40) {
 			// the root session asks for somebody else's 'me' / 'fnd'
 			p.Ops = append(p.Ops, wOp{K: "sub", S: 0, T: gPick(rt, []string{"me", "me", "fnd"}, "selft"), Obo: gInt(rt, 2, 3, "selfobo")})
@@ -626,7 +647,35 @@ func (o *c07Obs) After(w *wWorld, st *wStep) *kit.Viol {
 				// first subscription: topic default for the actor's level, or the previous grant
 				def, _ := topicDefault(o.pre, grpTopic, actorLvl)
 				if strings.HasPrefix(topic, "p2p") {
-					break // P2P grants come from the peer's defaults; range-checked above
+					// P2P: the requester's grant comes from the peer's default access for the level the request
+					// is executed at (the session's, or what a root session names in extra.authlevel), cut
+					// down to the P2P range, plus A. Judged for rows which did not exist at all.
+					if !hadA {
+						execLvl := actorLvl
+						if st.Op.Obo > 0 && st.Login >= 0 {
+							execLvl = w.users[st.Login].level
+							switch st.Op.Lvl {
+							case "anon":
+								execLvl = auth.LevelAnon
+							case "auth":
+								execLvl = auth.LevelAuth
+							}
+						}
+						u1, u2, _ := types.ParseP2P(topic)
+						peer := u1
+						if peer == target {
+							peer = u2
+						}
+						for _, ur := range o.pre.Users {
+							if ur.ID == peer {
+								want := selectAccessMode(execLvl, ur.Access.Anon, ur.Access.Auth, types.ModeCP2P)&types.ModeCP2P | types.ModeApprove
+								if b.given != want {
+									return kit.V("p2p-first-grant-not-peer-default", "user %d (request executed at level %v) started the P2P topic %s and got given %v; the peer's default access for that level is %v/%v (anon/auth), i.e. %v: %s", tgt, execLvl, topic, b.given, ur.Access.Anon, ur.Access.Auth, want, st.Req)
+								}
+							}
+						}
+					}
+					break
 				}
 				if hadA && a.deleted {
 					o.resub++
@@ -670,6 +719,20 @@ func (o *c07Obs) After(w *wWorld, st *wStep) *kit.Viol {
 				}
 				if b.given.IsOwner() && !givenBefore.IsOwner() && !actorMode.IsOwner() {
 					return kit.V("O-granted-by-non-owner", "user %d (mode %v) granted O to user %d on %s: %s", st.User, actorMode, tgt, topic, st.Req)
+				}
+				o.authorised++
+			}
+		}
+		// ---- removal by somebody else: {del what=sub} takes effective approve (or owner) permission
+		if hadA && hasB && !a.deleted && b.deleted && actor != target && st.Op.K == "del" && st.Op.A == "sub" && strings.HasPrefix(topic, "grp") {
+			actorRow, actorSub := pre[subKey{grpTopic, actor}]
+			if !(actor != target && o.stale(grpTopic, actor, actorRow, actorSub)) {
+				actorMode := actorRow.want & actorRow.given
+				if !actorSub || actorRow.deleted {
+					actorMode = 0
+				}
+				if !actorMode.IsAdmin() {
+					return kit.V("subscription-removed-by-unauthorised", "user %d (effective mode %v on %s: want %v, given %v) removed the subscription of user %d: %s", st.User, actorMode, grpTopic, actorRow.want, actorRow.given, tgt, st.Req)
 				}
 				o.authorised++
 			}
